@@ -1212,3 +1212,8 @@ mod tests {
         }
     }
 }
+
+// verification hook (add-only, inert unless built by `cargo kani`, which sets --cfg kani)
+#[cfg(kani)]
+#[path = "/verif/kani/key_public_harness.rs"]
+mod verif_kani;
